@@ -44,10 +44,10 @@ partial def decGoVal (j : Json) : Except String GoVal := do
     | .ok (.str "typednil") => return .typedNil
     | .ok (.str "nan") => return .nan
     | .ok (.str "nan32") => return .nan
-    | .ok (.str "inf") => return .inf
-    | .ok (.str "ninf") => return .inf
-    | .ok (.str "inf32") => return .inf
-    | .ok (.str "ninf32") => return .inf
+    | .ok (.str "inf") => return .inf false
+    | .ok (.str "ninf") => return .inf true
+    | .ok (.str "inf32") => return .inf false
+    | .ok (.str "ninf32") => return .inf true
     | .ok (.str "badfunc") => return .badFunc
     | _ =>
     match j.getObjVal? "$thunk" with
@@ -92,7 +92,7 @@ partial def encGoVal : GoVal → Json
   | .int i => Json.num (Lean.JsonNumber.fromInt i)
   | .float m e => if e == 0 then Json.mkObj [("$float", Json.num (Lean.JsonNumber.fromInt m))] else encJVal (.dec m e)
   | .nan => Json.mkObj [("$go", "nan")]
-  | .inf => Json.mkObj [("$go", "inf")]
+  | .inf neg => Json.mkObj [("$go", if neg then "ninf" else "inf")]
   | .str s => Json.str s
   | .list xs => Json.arr (xs.map encGoVal).toArray
   | .ref id => Json.mkObj [("$ref", Json.num (Lean.JsonNumber.fromNat id))]
